@@ -7,7 +7,7 @@
    (`lower_spec`), the correspondence run evaluates the model under the
    answers the real `to_lowercase` gave for the strings of each case. *)
 From Coq Require Import List NArith Bool String Ascii.
-From SNT Require Import Base.Outcome Base.Report.
+From SNT Require Import Base.Outcome Base.Report Gen.C18Keys.
 Import ListNotations.
 Local Open Scope N_scope.
 
@@ -178,18 +178,45 @@ Fixpoint lookup_lit {A} (tbl : list (str * A)) (s : str) : option A :=
   | (l, a) :: r => if str_eqb s l then Some a else lookup_lit r s
   end.
 
-(* keys.rs:270-285 in source order *)
-Definition named_keys : list (str * key_name) :=
-  [(s2l "left", KLeft); (s2l "up", KUp); (s2l "right", KRight); (s2l "down", KDown);
-   (s2l "pageup", KPageUp); (s2l "pagedown", KPageDown); (s2l "end", KEnd);
-   (s2l "home", KHome); (s2l "tab", KTab); (s2l "enter", KEnter); (s2l "escape", KEsc);
-   (s2l "esc", KEsc); (s2l "space", KChar 32); (s2l "backspace", KBackspace);
-   (s2l "delete", KDelete); (s2l "insert", KInsert)].
+(* The parsers' vocabulary is NOT written here: it is the list of literal match arms of
+   KeyName::from_str (keys.rs:270-285) and of Key::from_str (keys.rs:70-77), re-extracted from the
+   source on every run by translate/c18keys.py into Gen/C18Keys.v, in source order.  Every theorem about
+   the parsers is therefore re-checked against the table the code has now: an added or changed arm whose
+   value does not print to something that parses back breaks `named_keys_canon` / the round trip. *)
+Definition variant_of (name : string) (payload : N) : option key_name :=
+  if String.eqb name "Backspace" then Some KBackspace else if String.eqb name "Char" then Some (KChar payload)
+  else if String.eqb name "Delete" then Some KDelete else if String.eqb name "Insert" then Some KInsert
+  else if String.eqb name "Down" then Some KDown else if String.eqb name "End" then Some KEnd
+  else if String.eqb name "Enter" then Some KEnter else if String.eqb name "Esc" then Some KEsc
+  else if String.eqb name "F" then Some (KF payload) else if String.eqb name "Home" then Some KHome
+  else if String.eqb name "Left" then Some KLeft else if String.eqb name "MouseLeft" then Some KMouseLeft
+  else if String.eqb name "MouseMiddle" then Some KMouseMiddle else if String.eqb name "MouseMove" then Some KMouseMove
+  else if String.eqb name "MouseRight" then Some KMouseRight
+  else if String.eqb name "MouseWheelDown" then Some KMouseWheelDown
+  else if String.eqb name "MouseWheelUp" then Some KMouseWheelUp else if String.eqb name "PageDown" then Some KPageDown
+  else if String.eqb name "PageUp" then Some KPageUp else if String.eqb name "Right" then Some KRight
+  else if String.eqb name "Tab" then Some KTab else if String.eqb name "Up" then Some KUp
+  else None.
 
-(* keys.rs:70-77 in source order *)
+Definition named_keys : list (str * key_name) :=
+  flat_map (fun e => match variant_of (fst (snd e)) (snd (snd e)) with
+                     | Some k => [(s2l (fst e), k)]
+                     | None => []
+                     end) keyname_parse_arms.
+
+Definition keymod_const (name : string) : option N :=
+  match find (fun p => String.eqb (fst p) name) keymod_consts with Some p => Some (snd p) | None => None end.
+
 Definition mod_parse_table : list (str * N) :=
-  [(s2l "alt", 2); (s2l "ctrl", 4); (s2l "shift", 1); (s2l "press", 256);
-   (s2l "super", 8); (s2l "hyper", 16); (s2l "meta", 32); (s2l "capslock", 64)].
+  flat_map (fun e => match keymod_const (snd e) with
+                     | Some b => [(s2l (fst e), b)]
+                     | None => []
+                     end) keymod_parse_arms.
+
+(* no arm of the source was dropped on the way (every variant / constant name was understood) *)
+Definition tables_complete : bool :=
+  Nat.eqb (List.length named_keys) (List.length keyname_parse_arms)
+  && Nat.eqb (List.length mod_parse_table) (List.length keymod_parse_arms).
 
 (* `&string[1..]`: panics unless byte offset 1 is inside the string and on a
    character boundary, i.e. unless the first character is one byte long *)
@@ -293,6 +320,15 @@ Section Parsers.
     | _ => Ok ks
     end.
 End Parsers.
+
+(* decidable form of "a value the name parser can return" (Keys/KeyParseProofs.v name_canon) *)
+Definition name_canonb (n : key_name) : bool :=
+  match n with
+  | KChar c => is_plain c || (c =? 32)
+  | KF i => i <=? usize_max
+  | KMouseLeft | KMouseMiddle | KMouseMove | KMouseRight | KMouseWheelDown | KMouseWheelUp => false
+  | _ => true
+  end.
 
 (* the code as it is now (after the `fix:` commit): overflow is a ParseError *)
 Definition parse_name (lower : str -> str) := parse_name_gen lower (Err 1).
